@@ -263,7 +263,7 @@ func pipeAnalysePkg(path, fileName, src string, deps []pipeDep) (res pipeResult,
 	return res, facts
 }
 
-var ndHarnesses = map[string]func(){"Harness_Pipe_Smoke": Harness_Pipe_Smoke, "Harness_P08": Harness_P08, "Harness_P01": Harness_P01, "Harness_P07": Harness_P07, "Harness_P01L": Harness_P01L, "Harness_P08_Ok": Harness_P08_Ok, "Harness_P01X": Harness_P01X, "Harness_P01R": Harness_P01R, "Harness_P13": Harness_P13, "Harness_P10": Harness_P10, "Harness_P09": Harness_P09, "Harness_P14": Harness_P14, "Harness_P12": Harness_P12, "Harness_P20": Harness_P20, "Harness_P10R": Harness_P10R, "Harness_P18": Harness_P18, "Harness_P13M": Harness_P13M, "Harness_P01Y": Harness_P01Y, "Harness_P10V": Harness_P10V, "Harness_P14S": Harness_P14S}
+var ndHarnesses = map[string]func(){"Harness_Pipe_Smoke": Harness_Pipe_Smoke, "Harness_P08": Harness_P08, "Harness_P01": Harness_P01, "Harness_P07": Harness_P07, "Harness_P01L": Harness_P01L, "Harness_P08_Ok": Harness_P08_Ok, "Harness_P01X": Harness_P01X, "Harness_P01R": Harness_P01R, "Harness_P13": Harness_P13, "Harness_P10": Harness_P10, "Harness_P09": Harness_P09, "Harness_P14": Harness_P14, "Harness_P12": Harness_P12, "Harness_P20": Harness_P20, "Harness_P10R": Harness_P10R, "Harness_P18": Harness_P18, "Harness_P13M": Harness_P13M, "Harness_P01Y": Harness_P01Y, "Harness_P10V": Harness_P10V, "Harness_P14S": Harness_P14S, "Harness_P01T": Harness_P01T}
 
 // Harness_Pipe_Smoke: two fixed programs, one with an unguarded dereference of a nil local, one guarded.
 func Harness_Pipe_Smoke() {
